@@ -41,6 +41,12 @@ inductive Exc (V : Type) where
 
 abbrev M (V : Type) := Except (Exc V)
 
+/-- a method that assigns to `self`: the (possibly updated) receiver travels with the outcome, also when the
+method leaves through a `raise` statement -/
+inductive Outcome (V : Type) where
+  | ret (v : OVal V)
+  | raise (e : OVal V)
+
 /-- what calling a callable does is not utype's business: every translated function takes `W : World V`,
 every theorem is for all `W` (or for the `World` an encoding builds from the hand model's own world) -/
 structure World (V : Type) where
@@ -52,6 +58,9 @@ structure World (V : Type) where
   clsAttr : Nat → String → Option (OVal V)
   /-- `issubclass(C, (names…))` for a class value -/
   issubclass : OVal V → List String → M V Bool := fun _ _ => throw (.unmodelled "issubclass")
+  /-- a method of a *threaded* object that is not translated (`context.transformer(value, t)` on the caller's own
+  context): it may change the object, which is handed back with the outcome — also when the method raises -/
+  method : String → OVal V → List (OVal V) → M V (OVal V × Outcome V) := fun _ _ _ => throw (.unmodelled "method")
 
 variable {V : Type}
 
@@ -475,6 +484,49 @@ def dictItems (d : OVal V) : M V (OVal V) :=
   | .dict kvs => pure (.seq .list (kvs.map fun p => .seq .tuple [p.1, p.2]))
   | _ => throw (.unmodelled ".items on a non-dict")
 
+def delKey (k : OVal V) : List (OVal V × OVal V) → M V (List (OVal V × OVal V))
+  | [] => pure []
+  | (k', w) :: rest => do
+    if (← eq k k') then delKey k rest else pure ((k', w) :: (← delKey k rest))
+
+/-- `del d[k]`: the new dict; KeyError when the key is missing -/
+def dictDel (d k : OVal V) : M V (OVal V) :=
+  match d with
+  | .dict kvs => do
+    if (← lookupKey k kvs).isSome then pure (.dict (← delKey k kvs)) else throw .keyError
+  | _ => throw (.unmodelled "item deletion on a non-dict")
+
+/-- `d[k]`: KeyError when the key is missing -/
+def dictItem (d k : OVal V) : M V (OVal V) :=
+  match d with
+  | .dict kvs => do
+    match (← lookupKey k kvs) with
+    | some v => pure v
+    | Option.none => throw .keyError
+  | _ => throw (.unmodelled "item access on a non-dict")
+
+/-- `d.pop(k, *args)`: the new dict and the value; `args` is the tuple of the optional default -/
+def dictPop (d k args : OVal V) : M V (OVal V × OVal V) :=
+  match d with
+  | .dict kvs => do
+    match (← lookupKey k kvs) with
+    | some v => pure (.dict (← delKey k kvs), v)
+    | Option.none =>
+      match args with
+      | .seq _ [dflt] => pure (d, dflt)
+      | .seq _ [] => throw .keyError
+      | _ => throw (.unmodelled "pop with more than one default")
+  | _ => throw (.unmodelled ".pop on a non-dict")
+
+/-- `next(reversed(d))`: the key inserted last -/
+def dictLastKey (d : OVal V) : M V (OVal V) :=
+  match d with
+  | .dict kvs =>
+    match kvs.getLast? with
+    | some p => pure p.1
+    | Option.none => throw (.raised (.obj "StopIteration" []))
+  | _ => throw (.unmodelled "reversed() of a non-dict")
+
 /-- `d.clear()`: the new (empty) dict -/
 def dictClear (d : OVal V) : M V (OVal V) :=
   match d with
@@ -535,11 +587,6 @@ def tryExcept {α : Type} (classes : List String) (body : M V α) (handler : Exc
   | .ok a => .ok a
   | .error e => if e.isA classes then handler e else .error e
 
-/-- a method that assigns to `self`: the (possibly updated) receiver travels with the outcome, also when the
-method leaves through a `raise` statement -/
-inductive Outcome (V : Type) where
-  | ret (v : OVal V)
-  | raise (e : OVal V)
 
 /-- unfolding set for the `Except` plumbing of translated code -/
 macro "obj_simp" : tactic =>
